@@ -12,7 +12,9 @@ FUNCTIONS = [
 ]
 EXPLANATION = (
     "Engine K: the real AST of _is_path_connected_to_class (empty re-export map) is decided against 'the class path "
-    "ends with the reference at a segment boundary' for all slash-separated paths within the bound. Engine C: API "
+    "ends with the reference at a segment boundary' for all slash-separated paths within the bound; the closure "
+    "_module_name_check inside _get_shortest_public_reexport (extracted from the AST, free variables bound) is decided "
+    "against 'the name is one of the key's dotted segments' for all keys within the bound. Engine C: API "
     "models in which module pkg.m references a class in parameter (List<..>, Map<.., ..>), result, attribute and "
     "superclass position; the class lives in the same module, a sibling, a module whose id extends pkg.m (pkg.m2), a "
     "sub-package or another library; names X / Foo / my_cls; an unrelated decoy class (XFoo, a second X, Foo in a "
@@ -41,6 +43,7 @@ def plan(tier):
     parts = [f"0:{c},1:{m},2:{n}" for c in range(2) for m in range(5) for n in range(3)]
     return [
         K("k_path_match", "kjobs.c11", "path_matching", "path/class matching vs segment suffix"),
+        K("k_reexport_keys", "kjobs.c11", "reexport_key_matching", "re-export key selection vs dotted-segment membership"),
         CH("closure", "harness.c11", "closure", parts, timeout=t, desc="references declared or imported; imports resolve",
            stubs=["in-memory FS"], symbolic="configuration selectors"),
     ]
